@@ -62,7 +62,8 @@ def monitor (_pid : String) (c a : List String) : String :=
       | ["ext", n] => some (bytesOfHex n, ((r.splitOn "/").drop 1).headD "")
       | _ => none
     let bad := Spec.ClientTLS.check (bytesOfHex pw) tls (bytesOfHex iw) ctor later (mode == "sendmail") ++
-      (if innerS == "-" then [] else Spec.ClientTLS.checkExt tls innerFirst exts)
+      (if innerS == "-" then [] else Spec.ClientTLS.checkExt tls innerFirst exts ++
+         Spec.ClientTLS.checkNoParams tls innerFirst (bytesOfHex iw))
     if bad.isEmpty then "ok" else "bad: " ++ String.intercalate "; " bad
   | _, _ => "bad: unparsable observation"
 
